@@ -6,6 +6,7 @@ import (
 	"fmt"
 	"reflect"
 	"strings"
+	"sync/atomic"
 	"sync"
 	"time"
 
@@ -24,6 +25,10 @@ func execAttempt(t *trace, script []string) {
 		f := strings.Fields(line)
 		if len(f) == 5 && f[0] == "tiny" {
 			t.Line(line, attemptTiny(atoi(f[1]), atoi(f[2]), atoi(f[3])))
+			continue
+		}
+		if len(f) == 3 && f[0] == "erronly" {
+			t.Line(line, attemptErrOnly(atoi(f[1])))
 			continue
 		}
 		if len(f) == 4 && f[0] == "slowcancel" {
@@ -253,7 +258,44 @@ func attemptSlowCancel(rateMs int, seed int) string {
 	}
 }
 
+// errOnlyCtx reports its end through Err() only: Done() is a channel that is never closed (a legal, if unhelpful, context; the
+// package's own example uses one).  LinearAttempt's guards are documented to go by Err().
+type errOnlyCtx struct{ ended atomic.Bool }
+
+func (c *errOnlyCtx) Deadline() (time.Time, bool) { return time.Time{}, false }
+func (c *errOnlyCtx) Done() <-chan struct{}       { return nil }
+func (c *errOnlyCtx) Value(any) any               { return nil }
+func (c *errOnlyCtx) Err() error {
+	if c.ended.Load() {
+		return context.Canceled
+	}
+	return nil
+}
+
+// attemptErrOnly: the context has ended BEFORE the call and says so through Err() only: the channel must come back closed and empty
+func attemptErrOnly(count int) string {
+	c := &errOnlyCtx{}
+	c.ended.Store(true)
+	ch := bigbuff.LinearAttempt(c, time.Millisecond, count)
+	n := 0
+	deadline := time.After(stepTimeout)
+	for {
+		select {
+		case _, ok := <-ch:
+			if !ok {
+				return fmt.Sprintf("values=%d closed", n)
+			}
+			n++
+		case <-deadline:
+			return fmt.Sprintf("values=%d not-closed", n)
+		}
+	}
+}
+
 func genAttempt(r *rng.R, tier string, i int) []string {
+	if i%25 == 19 {
+		return []string{fmt.Sprintf("erronly %d %d", 1+r.Intn(4), r.Intn(1<<30))}
+	}
 	if i%25 == 7 {
 		return []string{fmt.Sprintf("tiny %d %d %d %d", []int{1, 20, 100, 1000}[r.Intn(4)], 2+r.Intn(3), 1500, r.Intn(1<<30))}
 	}
